@@ -303,6 +303,44 @@ def extra_c10_perm(prop, tier, seed):
     return res
 
 
+def extra_c10_members(prop, tier, seed):
+    """Bounded stand-in (labelled, never counted) for the second clause of C10 on BOTH real validators: for every
+    set of 2..3 members out of 9 with pairwise disjoint keys (literal text keys with ?, *, n*m occurrences, a literal
+    integer key, tables over nint and bstr, an array-valued member) and every set of <= 2 (thorough: 3) pairs out
+    of 14 with distinct keys, ALL orders of the schema members x ALL orders of the document pairs must get one
+    verdict (CBOR; JSON when the pairs are JSON-expressible).  Instances failing on the unchanged tree are recorded
+    in known_instances_C10_members.json (known findings F36: JSON member order; F18: type-keyed members, CBOR pair order).  A third
+    family takes ordered lists of 2..3 members out of 7 whose keys OVERLAP and requires invariance under pair order only."""
+    out, err = _replay(['u6c', 'find'] + (['thorough'] if tier == 'thorough' else []), timeout=3000)
+    if out is None:
+        raise engine.Undecided('replay-failed', err)
+    known = json.load(open(os.path.join(engine.VERIF, 'known_instances_C10_members.json')))
+    failing = out.get('failing', [])
+    new = [f for f in failing if f not in known]
+    res = {'violations': [], 'bounded': [{'check': 'verdict invariant under permutation of schema members with disjoint keys and of document pairs (real validators, CBOR and JSON); for members with overlapping keys (tables over uint / int / any / tstr next to literal keys): under permutation of the pairs (CBOR)',
+                                          'bound': '120 member sets x %s pair sets, all orders of both; 252 ordered overlapping member lists x 77 pair sets, all pair orders' % ('470' if tier == 'thorough' else '106'), 'validations': out.get('tried'),
+                                          'disagreeing_instances': len(failing), 'recorded_as_known_F36_or_F18': len(failing) - len(new), 'new': len(new)}]}
+    for fid, label, wid, fn in (('F36', 'map:recorded-member-order-instances', 'json##a: int | * c: bool##', 'JSONValidator (map members with occurrences)'),
+                                ('F18', 'map:verdict-invariant-under-pair-permutation:recorded-instances', None, 'CBORValidator (map members keyed by type)')):
+        ks = sorted(f for f in failing if known.get(f) == fid)
+        if ks:
+            w = {'id': wid or ks[0]}
+            res['violations'].append({
+                'unit': 'U6c', 'label': label, 'fn': fn,
+                'message': '%d recorded (members, pairs) instances get different verdicts for different orders' % len(ks),
+                'clause': [], 'engine': 'replay', 'verifier_output': out.get('first', ''),
+                'fixed_witness': {'found': True, 'witness': w, 'real': out.get('first'), 'replay_args': ['u6c', 'replay', json.dumps(w)]}})
+    if new:
+        w = {'id': new[0]}
+        res['violations'].append({
+            'unit': 'U6c', 'label': 'map:verdict-invariant-under-member-and-pair-permutation', 'fn': 'map validation',
+            'message': '%d (members, pairs) instances that are NOT recorded get different verdicts for different orders (first: %s)' % (len(new), new[0]),
+            'clause': [], 'engine': 'replay', 'verifier_output': json.dumps(new[:20]),
+            'fixed_witness': {'found': True, 'witness': w, 'real': 'orders of this instance disagree: ' + new[0],
+                              'replay_args': ['u6c', 'replay', json.dumps(w)]}})
+    return res
+
+
 def crash_search(tier):
     """Runs replay `u5c` over its case list in subprocesses (4 GiB address-space limit); a case that kills
     the process (stack overflow, allocation failure) or panics is a failing instance.  Returns
@@ -871,10 +909,10 @@ PROPS = {
     },
     'C10': {
         'vx': ['U6'],
-        'extra': [extra_c10_bounded, extra_c10_perm],
+        'extra': [extra_c10_bounded, extra_c10_perm, extra_c10_members],
         'witness': witness_u6,
         'technique': 'Verus contract (requires/ensures/decreases, loop invariant, proof hints) on the real Kuhn augmenting step + lemma for its caller',
-        'level_text': 'Duplicate-key clause of C10 only ("each physical key/value pair must be accounted for by some member" - no pair is handed to two members, no member gets two pairs): Verus proves for the real augment_single_entry_assignment, for every compatibility matrix and every search state, that owners are compatible claims, pairs already visited keep their owner, failure leaves the assignment unchanged, success gives the searching claim exactly one new unvisited pair, no other claim ever owns two pairs, no claim appears from nowhere, matched claims stay matched; termination (decreasing count of unvisited pairs); index safety. A lemma derives for the calling loop that the assignment stays an injective matching. Completeness of the search (false => no perfect matching) is only cross-checked against brute force on small matrices (bounded, not counted). Order-independence of the verdict itself is outside both verifiers (it is produced by the validator visitor); a bounded stand-in runs all pair permutations of small maps through the real validator (labelled bounded) and found that the verdict IS order-dependent for members keyed by type - known finding F18, recorded instance by instance so that new instances are still reported.',
+        'level_text': 'Duplicate-key clause of C10 only ("each physical key/value pair must be accounted for by some member" - no pair is handed to two members, no member gets two pairs): Verus proves for the real augment_single_entry_assignment, for every compatibility matrix and every search state, that owners are compatible claims, pairs already visited keep their owner, failure leaves the assignment unchanged, success gives the searching claim exactly one new unvisited pair, no other claim ever owns two pairs, no claim appears from nowhere, matched claims stay matched; termination (decreasing count of unvisited pairs); index safety. A lemma derives for the calling loop that the assignment stays an injective matching. Completeness of the search (false => no perfect matching) is only cross-checked against brute force on small matrices (bounded, not counted). Order-independence of the verdict itself is outside both verifiers (it is produced by the validator visitor); a bounded stand-in runs all pair permutations of small maps through the real validator (labelled bounded) and found that the verdict IS order-dependent for members keyed by type - known finding F18, recorded instance by instance so that new instances are still reported. A second bounded stand-in permutes the MEMBERS of the schema (pairwise disjoint keys) together with the pairs, for both validators: the CBOR validator is order-independent there, the JSON validator is not (known finding F36, 94 recorded instances).',
         'level_note': 'Trusted: Verus+Z3, vstd slice/Vec specs. Extraction rewrites: R2 (Option::is_none_or closure inlined to match), R6 (Self:: dropped, associated fn lifted), R9 (for-range with continue desugared to while with the increment first). Unverified: try_reassign_failed_single_entries (builds the matrix by running the validator and commits the assignment), the ledger bookkeeping on the validator struct, JSON side (serde_json map has no duplicate keys).',
         'design_ref': 'DESIGN.md 4 U6',
         'scope': 'CBORValidator::augment_single_entry_assignment',
